@@ -826,5 +826,5 @@ def _run(ctx: U.Ctx, tier: str, seed: int) -> BoundedReport:
 
 
 def run(tier: str, seed: int) -> BoundedReport:
-    budget = 50 if tier == 'quick' else 780
+    budget = 50 if tier == 'quick' else 660
     return U.run_isolated('c14_immutable', 'C14', tier, seed, budget_s=budget, hard_timeout_s=budget * 2 + 60)
